@@ -23,12 +23,55 @@ def rowvals(w):
             srow("d" * (w + 1)), frow([[[], RED]]), srow("e" * max(0, w - 1))]
 
 
+class _Hang(Exception):
+    pass
+
+
+class _time_limit:
+    """an assignment that does not come back within a few seconds (it is building an astronomically tall array) is
+    recorded as having raised `_Hang` instead of taking the harness down with it"""
+
+    def __init__(self, seconds):
+        self.seconds = seconds
+
+    def _fire(self, signum, frame):
+        raise _Hang("no answer within %d s" % self.seconds)
+
+    def __enter__(self):
+        import signal
+        self.old = signal.signal(signal.SIGALRM, self._fire)
+        signal.alarm(self.seconds)
+
+    def __exit__(self, *exc):
+        import signal
+        signal.alarm(0)
+        signal.signal(signal.SIGALRM, self.old)
+        return False
+
+
+def spelt(lo, hi, dim, sp):
+    """the slice lo:hi written another way with the same meaning on an axis of length dim: sp 0 as given, 1 negative
+    bounds where the bound lies inside the axis, 2 omitted bounds (None) where the bound is the axis's end, 3 both"""
+    a, b = lo, hi
+    if sp in (1, 3):
+        if 0 <= lo < dim:
+            a = lo - dim
+        if 0 <= hi < dim:
+            b = hi - dim
+    if sp in (2, 3):
+        if lo == 0:
+            a = None
+        if hi == dim:
+            b = None
+    return slice(a, b)
+
+
 class C04(TraceCheck):
     pid = "C04"
     module = "FSArrayTrace"
     rule = ("histories of region assignments on a real FSArray: shapes 0..3 x 0..4 (constructor formatting none / bg), forms "
             "a[r0:r1, c0:c1] = block, a[r, c] = [x], a[r0:r1] = block, regions inside, straddling and beyond the height "
-            "(r in 0..rows+2, c in 0..cols) and hanging over the right edge (column stops up to 2*cols+2), blocks with the right and wrong number of rows, rows shorter/equal/longer than the "
+            "(r in 0..rows+2, c in 0..cols) and hanging over the right edge (column stops up to 2*cols+2), bounds also written as negative numbers and omitted (None), blocks with the right and wrong number of rows, rows shorter/equal/longer than the "
             "region, empty rows, given as list of str/FmtStr or as FSArray; after every step the full row list is recorded; "
             "region and row reads are interleaved; fsarray(strings, width) construction. Sources: TLC-generated behaviours "
             "(MC_FSArray GenSpec) + all single assignments on 1x2/2x2/2x3 arrays pre-filled two ways + seeded random "
@@ -204,7 +247,21 @@ class C04(TraceCheck):
                 ch = max(ch, r1)
             yield {"h": h, "w": w, "fmt": k % 2, "steps": steps}
 
+    def _spell(self, hist):
+        if hist.get("steps") and any(st.get("r0", 0) > 1000 for st in hist["steps"]):
+            return hist
+        # the same regions written with negative and omitted bounds (every history gets one spelling for its reads,
+        # every third one also for its assignments)
+        import zlib
+        h = zlib.crc32(json.dumps(hist, sort_keys=True, default=str).encode())
+        sp = h % 4
+        for k, st in enumerate(hist.get("steps", [])):
+            if st.get("k") == "read" or (st.get("k") == "assign" and st.get("form") in ("slice2", "rows") and (h // 4) % 3 == 0):
+                st.setdefault("sp", sp)
+        return hist
+
     def run_history(self, hist):
+        hist = self._spell(hist)
         from curtsies.formatstringarray import FSArray, fsarray
         from curtsies.formatstring import fmtstr
         kw = {"bg": "blue"} if hist["fmt"] else {}
@@ -237,12 +294,13 @@ class C04(TraceCheck):
                     except Exception:  # noqa
                         rec["bk"] = "list"
                 try:
+                  with _time_limit(4):
                     if st["form"] == "cell":
                         a[st["r0"], st["c0"]] = block
                     elif st["form"] == "rows":
-                        a[st["r0"]:st["r1"]] = block
+                        a[spelt(st["r0"], st["r1"], len(a.rows), st.get("sp", 0))] = block
                     else:
-                        a[st["r0"]:st["r1"], st["c0"]:st["c1"]] = block
+                        a[spelt(st["r0"], st["r1"], len(a.rows), st.get("sp", 0)), spelt(st["c0"], st["c1"], a.width, st.get("sp", 0))] = block
                 except Exception as e:  # noqa
                     rec["exc"] = enc.exc_name(e)
                 rec["rows"] = snap()
@@ -272,7 +330,7 @@ class C04(TraceCheck):
             else:
                 rec["got"] = []
                 try:
-                    got = a[st["r0"]:st["r1"], st["c0"]:st["c1"]]
+                    got = a[spelt(st["r0"], st["r1"], len(a.rows), st.get("sp", 0)), spelt(st["c0"], st["c1"], a.width, st.get("sp", 0))]
                     rec["got"] = [enc.enc_fmtstr(g) for g in got]
                 except Exception as e:  # noqa
                     rec["exc"] = enc.exc_name(e)
